@@ -630,12 +630,18 @@ type ShardCounts struct {
 	// UnusableDataShardCount is the number of parity shards that
 	// are unusable, i.e. missing or corrupt.
 	UnusableParityShardCount int
+
+	// MisplacedDataFileCount is the number of data files that are
+	// missing or don't have their expected contents even though
+	// all of their data shards are usable, e.g. because the
+	// shards were found only at other offsets or in other files.
+	MisplacedDataFileCount int
 }
 
 // RepairNeeded returns whether repair is needed, i.e. whether
-// UnusableDataShardCount is non-zero.
+// UnusableDataShardCount or MisplacedDataFileCount is non-zero.
 func (fc ShardCounts) RepairNeeded() bool {
-	return fc.UnusableDataShardCount > 0
+	return fc.UnusableDataShardCount > 0 || fc.MisplacedDataFileCount > 0
 }
 
 // RepairPossible returns whether repair is possible i.e. whether
@@ -649,13 +655,20 @@ func (d *Decoder) ShardCounts() ShardCounts {
 	usableDataShardCount := 0
 	unusableDataShardCount := 0
 
+	misplacedDataFileCount := 0
+
 	for _, info := range d.fileIntegrityInfos {
+		hasUnusableShard := false
 		for _, shardInfo := range info.shardInfos {
 			if shardInfo.data == nil {
 				unusableDataShardCount++
+				hasUnusableShard = true
 			} else {
 				usableDataShardCount++
 			}
+		}
+		if !hasUnusableShard && !info.ok(d.sliceByteCount) {
+			misplacedDataFileCount++
 		}
 	}
 
@@ -675,6 +688,7 @@ func (d *Decoder) ShardCounts() ShardCounts {
 		UnusableDataShardCount:   unusableDataShardCount,
 		UsableParityShardCount:   usableParityShardCount,
 		UnusableParityShardCount: unusableParityShardCount,
+		MisplacedDataFileCount:   misplacedDataFileCount,
 	}
 }
 
